@@ -310,6 +310,36 @@ func TestScheme(t *testing.T) {
 		}
 		k.verifyBothMu(rt, "fresh-deterministic", mu, det)
 
+		// --- sigDecode / sigEncode / w1Encode on this signature's components
+		{
+			rc, rz, rh, ok := mldsaref.SigDecode(p, det)
+			tc, tz, th, terr := imldsa.VerifSigDecode(ps.tk, det)
+			if !ok || terr != nil {
+				rt.Fatalf("%s: sigDecode err=%v, reference SigDecode ok=%v on the deterministic signature", desc(), terr, ok)
+			}
+			if i, j := vecFirstDiff(vecToRef(tz), rz); !bytes.Equal(tc, rc) || i != -1 {
+				rt.Fatalf("%s: sigDecode: c~ or z (polynomial %d coefficient %d) differs from the reference\nsig = %x", desc(), i, j, det)
+			}
+			if i, j := vecFirstDiff(vecToRef(th), rh); i != -1 {
+				rt.Fatalf("%s: sigDecode: hint differs from the reference at polynomial %d coefficient %d\nsig = %x", desc(), i, j, det)
+			}
+			if got := imldsa.VerifSigEncode(ps.tk, rc, vecFromRef(rz), vecFromRef(rh)); !bytes.Equal(got, det) {
+				rt.Fatalf("%s: sigEncode(sigDecode(sig)) differs from sig\ntink = %x\nsig  = %x", desc(), got, det)
+			}
+			// w1: K polynomials with coefficients in [0, (q-1)/(2*gamma2) - 1]
+			s := &splitmix{entropy}
+			w1 := make([]mldsaref.Poly, p.K)
+			m := int64((q - 1) / (2 * p.Gamma2))
+			for i := range w1 {
+				for j := range w1[i] {
+					w1[i][j] = s.intn(m)
+				}
+			}
+			if got, want := imldsa.VerifW1Encode(ps.tk, vecFromRef(w1)), mldsaref.W1Encode(p, w1); !bytes.Equal(got, want) {
+				rt.Fatalf("%s: w1Encode of the vector expanded from seed %#x (coefficients uniform in [0,%d)) differs from the reference\ntink = %x\nref  = %x", ps.name, entropy, m, got, want)
+			}
+		}
+
 		// --- explicit randomness through the hook: byte-identical for any rnd
 		rnd := gen.BytesN(rt, "rnd", 32)
 		wantR := mldsaref.SignInternal(p, k.skRef, mPrime, arr32(rnd))
